@@ -72,6 +72,9 @@ class C08(PropBase):
             typed_literal = ob[1] == '1' and ob[6] == '0' and ob[0][0].split('/')[-1] not in v.alias
             if c.op == 'match':
                 me = c.args[0][1]
+                from props.c01 import natural as _nat
+                if _nat(v, me.split(':')[-1]) is None:
+                    continue      # match() is defined on typed Sids (an undefined Sid answers False by design)
                 if me.split('/')[-1] in v.alias:
                     continue      # a Sid whose last value is an alias name is a search, not an entity
                 # found by q in a list containing only itself
